@@ -328,17 +328,31 @@ def derived_docs(spec, plan):
     return docs
 
 
-def derived_python(spec, plan):
-    """the same derivations through the Python classes"""
+def dict_decl(decl):
+    """'output(0.3)' / 1.5 / 'input(0.0)' -> the explicit dictionary form of a variable declaration"""
+    if isinstance(decl, (int, float)):
+        return {"vtype": "constant", "value": float(decl), "dtype": "float", "shape": (1,)}
+    kind, val = decl.split("(")
+    vt = {"output": "output", "variable": "state_var", "input": "input"}[kind]
+    return {"vtype": vt, "value": float(val[:-1]), "dtype": "float", "shape": (1,)}
+
+
+def derived_python(spec, plan, use_dicts=False, changed=None):
+    """the same derivations through the Python classes; `changed` collects base templates that a derivation altered"""
     from pyrates import CircuitTemplate, NodeTemplate, OperatorTemplate
+    conv = (lambda d: {k: dict_decl(v) for k, v in d.items()}) if use_dicts else (lambda d: dict(d))
     ops = {}
     for o, od in spec["ops"].items():
         if o in plan["ops"]:
             steps = plan["ops"][o]
             eqs, variables = op_parts(steps[-1]["base"])
-            t = OperatorTemplate(name=o, equations=eqs, variables=variables, path=None)
+            t = OperatorTemplate(name=o, equations=eqs, variables=conv(variables), path=None)
             for stp in reversed(steps):
-                t = t.update_template(equations=copy.deepcopy(stp["edit"]) or None, variables=dict(stp["vars"]) or None)
+                before = (list(t.equations), copy.deepcopy(t.variables))
+                t2 = t.update_template(equations=copy.deepcopy(stp["edit"]) or None, variables=conv(stp["vars"]) or None)
+                if changed is not None and (list(t.equations), t.variables) != before:
+                    changed.append((o, stp["kind"], before[1], copy.deepcopy(t.variables)))
+                t = t2
             ops[o] = t
         else:
             eqs, variables = op_parts(od)
@@ -378,7 +392,8 @@ class DefinitionsArm(Arm):
                                         "max_edges": 4, "expr_depth": 2, "depths": [0, 0, 0, 1, 2], "collision": False,
                                         "max_alg": 1, "funcs": ["tanh", "sigmoid", "exp", "sin"], "pow": True}))
             plan = draw(derivation(spec))
-            return {"spec": spec, "plan": plan, "same_names": draw(st.sampled_from([False, False, True]))}
+            return {"spec": spec, "plan": plan, "same_names": draw(st.sampled_from([False, False, True])),
+                    "dict_decl": draw(st.booleans())}
         return case()
 
     def valid(self, case):
@@ -413,6 +428,8 @@ class DefinitionsArm(Arm):
                     lab.append("containment")
         if plan.get("split_circuit"):
             lab.append("derived:circuit")
+        if case.get("dict_decl") and plan["ops"]:
+            lab.append("dict_declarations")
         res.labels = sorted(set(lab))
         res.nontrivial = bool(lab)
         def build_P():
@@ -466,7 +483,8 @@ class DefinitionsArm(Arm):
             if plan["ops"] or plan.get("split_circuit"):
                 dump(derived_docs(spec, plan), f"{d}/derived.yaml")
                 variants.append(("derived-yaml", lambda: CircuitTemplate.from_yaml(f"{d}/derived/net")))
-                variants.append(("derived-python", lambda: derived_python(spec, plan)))
+                changed = []
+                variants.append(("derived-python", lambda: derived_python(spec, plan, bool(case.get("dict_decl")), changed)))
             for vname, mk in variants:
                 isolate.reset(remove_files=False)
                 try:
@@ -483,6 +501,10 @@ class DefinitionsArm(Arm):
                     res.violate(exc_bucket(f"raises:{vname}:{'+'.join(kinds)}", e),
                                 f"{vname} definition raises although the Python definition works: {short_exc(e)}")
                     continue
+                if vname == "derived-python" and changed:
+                    o, kind, b0, b1 = changed[0]
+                    res.violate(f"derivation-changed-base:{kind}", f"update_template ({kind}) on operator {o} changed the base "
+                                                                   f"template's variables from {b0} to {b1}")
                 why = compare(ref, got)
                 if why:
                     kinds = sorted({s_["kind"] for st_ in plan["ops"].values() for s_ in st_}) if vname.startswith("derived") else []
